@@ -48,6 +48,23 @@ func perturbNodes(r *rand.Rand, objs []client.Object) []client.Object {
 		}
 		out = append(out, o.DeepCopyObject().(client.Object))
 	}
+	// the ExtendedDaemonSet keeps its name but its user switches differ (pause / freeze flipped)
+	for i, o := range out {
+		if d, ok := o.(*edsv1.ExtendedDaemonSet); ok && r.Intn(2) == 0 {
+			c := d.DeepCopy()
+			if c.Annotations == nil {
+				c.Annotations = map[string]string{}
+			}
+			for _, k := range []string{edsv1.ExtendedDaemonSetRollingUpdatePausedAnnotationKey, edsv1.ExtendedDaemonSetRolloutFrozenAnnotationKey} {
+				if c.Annotations[k] == "true" {
+					delete(c.Annotations, k)
+				} else if r.Intn(2) == 0 {
+					c.Annotations[k] = "true"
+				}
+			}
+			out[i] = c
+		}
+	}
 	// settings keep their names but select other nodes
 	for i, o := range out {
 		if st, ok := o.(*edsv1.ExtendedDaemonsetSetting); ok && r.Intn(2) == 0 {
@@ -134,6 +151,15 @@ type listFaultClient struct {
 	// failKind: when set, the first List of that list type fails instead (e.g. "ExtendedDaemonsetSettingList")
 	failKind string
 	done     bool
+	// failGet: when set, every Get of an object of that type fails (e.g. "ExtendedDaemonSet")
+	failGet string
+}
+
+func (l *listFaultClient) Get(ctx context.Context, key client.ObjectKey, obj client.Object, opts ...client.GetOption) error {
+	if l.failGet != "" && strings.HasSuffix(fmt.Sprintf("%T", obj), "."+l.failGet) {
+		return injectedErr("get", l.failGet)
+	}
+	return l.Client.Get(ctx, key, obj, opts...)
 }
 
 func (l *listFaultClient) List(ctx context.Context, list client.ObjectList, opts ...client.ListOption) error {
